@@ -15,18 +15,22 @@ TIERS = {
     # larger random descriptions per shard, iterated in full up to random_max
     # members, else on a prefix; members: reference members through DNA() /
     # validate / binding / from_numbers; corrupt: members corrupted, with one
-    # corruption of each of <= corrupt_kinds (name, kind) classes; draws:
+    # corruption of each of <= corrupt_kinds (name, kind) classes, <= mutate of
+    # them also as a change in place of a bound member; custom_embed: in how
+    # many of the 7 embeddings a sequence of the custom family is placed; draws:
     # random_dna draws; sweep_full: Sweeping compared to its end up to this size.
     'quick': dict(shards=8, max_dnas=6, random=5, random_max=40, prefix=16,
                   members=2, corrupt=1, corrupt_kinds=6, flat_kinds=3,
                   draws=2, gen_draws=1, next_picks=1, first_iter=1,
                   sweep_full=6, sweep_prefix=3, validate_iterated=16,
-                  reuse_tail=1, stub_draws=1, regen=0.4, timeout_s=600),
+                  reuse_tail=1, stub_draws=1, regen=0.4, mutate=1, custom_embed=3,
+                  timeout_s=600),
     'thorough': dict(shards=16, max_dnas=64, random=12, random_max=200,
                      prefix=30, members=4, corrupt=1, corrupt_kinds=None,
                      flat_kinds=None, draws=6, gen_draws=2, next_picks=2,
                      first_iter=3, sweep_full=30, sweep_prefix=6,
                      validate_iterated=30, reuse_tail=3, stub_draws=2, regen=1.0,
+                     mutate=None, custom_embed=None,
                      timeout_s=3000, case_timeout_s=300),
 }
 EXHAUSTIVE = {'quick': True, 'thorough': True}
@@ -50,7 +54,7 @@ RULE = ('case = one search-space description. Exhaustive part (same for every '
         'sequence of genomes: groups of 3 of 16 hostile but legal genomes - '
         'empty, blank, "0", "None", "False", "[]", "-1", "nan", NUL, newline, '
         'non-ASCII, 5000 characters... - as an increasing sequence and in a '
-        'user order, each alone, right / left of a choice, '
+        'user order, each in 3 (quick) / all (thorough) of 7 embeddings, taken in turn: alone, right / left of a choice, '
         'two custom points in one space, in a candidate of a single / multi '
         'choice, in a candidate and again right of it; four one-genome '
         'sequences alone and right of a choice) and by the fixed '
@@ -387,13 +391,13 @@ def customv(values=None):
   return e
 
 
-def custom_family():
+def custom_family(nembed=None):
   """Fixed descriptions with enumerable custom points: groups of 3 hostile
   genomes as one increasing sequence and in a user order that is not
   increasing, each in every embedding (alone, right and left of a choice, two
   custom points in one space, in a candidate of a single and of a multi
-  choice, in a candidate and again right of it); four sequences of one genome
-  in the first two embeddings."""
+  choice, in a candidate and again right of it; or in `nembed` of them, taken
+  in turn); four sequences of one genome in the first two embeddings."""
   seqs = []
   for at in range(0, len(HOSTILE), 3):
     grp = HOSTILE[at:at + 3]
@@ -415,7 +419,13 @@ def custom_family():
   out = []
   for si, v in enumerate(seqs):
     w = seqs[(si + 1) % len(seqs)]
-    for em in embed if si < ngroups else embed[:2]:
+    if si >= ngroups:
+      ems = embed[:2]
+    elif nembed is None or nembed >= len(embed):
+      ems = embed
+    else:
+      ems = [embed[(si * nembed + j) % len(embed)] for j in range(nembed)]
+    for em in ems:
       d = S.relocate(em(v, w))
       d['custom_family'] = True
       out.append(d)
@@ -465,19 +475,20 @@ def vary_customs(desc, rng):
       e['values'] = vals
 
 
-def extras():
-  if not _EXTRAS:
-    _EXTRAS.extend(custom_family() + infinite_family())
-  return _EXTRAS
+def extras(ctx):
+  key = ctx.params.get('custom_embed')
+  if key not in _EXTRAS:
+    _EXTRAS[key] = custom_family(key) + infinite_family()
+  return _EXTRAS[key]
 
 
-_EXTRAS = []
+_EXTRAS = {}
 
 
 def my_extras(ctx):
   """The custom and infinite families come last (earlier cases keep their
   index, hence their seed)."""
-  return extras()[ctx.shard::ctx.nshards]
+  return extras(ctx)[ctx.shard::ctx.nshards]
 
 
 def family(ctx):
@@ -499,7 +510,7 @@ def setup(ctx):
   ctx.notes['family_size'] = len(fam)
   ctx.notes['family_members'] = sum(G.size(d) or 0 for d in fam)
   ctx.notes['float_family_size'] = len(floats())
-  ctx.notes['custom_family_size'] = len(custom_family())
+  ctx.notes['custom_family_size'] = len(custom_family(ctx.params.get('custom_embed')))
   ctx.notes['infinite_family_size'] = len(infinite_family())
 
 
@@ -910,9 +921,11 @@ def check_nonmembers(ctx, rng, desc, spec, members, case, all_kinds=False):
   c = ctx.counters
   max_kinds = (not all_kinds and ctx.params.get('corrupt_kinds')) or 10 ** 9
   max_flat = (not all_kinds and ctx.params.get('flat_kinds')) or 10 ** 9
+  max_mutated = ctx.params.get('mutate')
+  max_mutated = 10 ** 9 if max_mutated is None else max_mutated
   for m in members:
     seen_kinds = set()
-    tried = 0
+    tried = mutated = 0
     for name, knd, t, var in corruptions(rng, desc, m):
       cls = (name, knd, var)
       if cls in seen_kinds:
@@ -954,7 +967,8 @@ def check_nonmembers(ctx, rng, desc, spec, members, case, all_kinds=False):
                       f'{src[:-1]:.600}, spec=) accepted ({origin:.600})', case)
       # the same non-member reached by changing a bound member in place
       # (judged only where the tree built afresh is rejected by both)
-      if key[0] == name and not ok and not ok2:
+      if key[0] == name and not ok and not ok2 and mutated < max_mutated:
+        mutated += 1
         check_mutated(ctx, rng, desc, spec, m, t, name, case)
     seen = set()
     for name, flat in flat_corruptions(rng, desc, m):
